@@ -48,10 +48,10 @@ theorem addElt_err_iff {P : Params} {sub : Bool} {a b o : Meta} :
     · cases h
   · intro h; exact ⟨.err, by simp [h]⟩
 
-/-- `Add/Sub` with a scalar never writes the scale of the receiver. -/
+/-- `Add/Sub` with a scalar: the result is recorded at the operand's scale, whatever the receiver. -/
 theorem addScalar_meta {P : Params} {sub : Bool} {a o : Meta} {re im : SD} {r : Res}
     (h : addScalar P sub a o re im = .ok r) :
-    r.md.level = min a.level o.level ∧ r.md.degree = a.degree ∧ r.md.scale = o.scale ∧
+    r.md.level = min a.level o.level ∧ r.md.degree = a.degree ∧ r.md.scale = a.scale ∧
     r.md.logSlots = a.logSlots := by
   unfold addScalar at h
   cases h; exact ⟨rfl, rfl, rfl, rfl⟩
@@ -132,8 +132,8 @@ theorem primeScale_two {P : Params} {level : Nat} (h : P.lcpr = 2) (hl : 1 ≤ l
   have : ¬ (level + 1 < 2) := by omega
   simp [h, this, List.range_succ]
 
-/-- two primes per rescale at level 0: `ringQ.SubRings[level-1]` panics. -/
-theorem primeScale_panic {P : Params} (h : P.lcpr = 2) : primeScale P 0 = .error .panic := by
+/-- two primes per rescale at level 0: a documented error (no panic). -/
+theorem primeScale_low_level {P : Params} (h : P.lcpr = 2) : primeScale P 0 = .error .err := by
   unfold primeScale; simp [h]
 
 /-! ## Rescale -/
@@ -193,7 +193,7 @@ theorem rescaleToLoop_le (P : Params) (mh : Dy) : ∀ (n nb : Nat) (cur : Dy),
     simp only
     split
     · simp
-    · have := rescaleToLoop_le P mh n (nb + 1) (sdiv cur (Dy.ofNat (P.q n)))
+    · have := rescaleToLoop_le P mh n (nb + 1) (sdiv cur (Dy.ofNat (P.q (n + 1))))
       omega
 
 theorem rescaleTo_meta {P : Params} {a : Meta} {m : Dy} {r : Res} (h : rescaleTo P a m = .ok r) :
@@ -207,15 +207,20 @@ theorem rescaleTo_meta {P : Params} {a : Meta} {m : Dy} {r : Res} (h : rescaleTo
     · split at h
       · cases h
       · rename_i hl
+        have hle := (rescaleToLoop_le P (sdiv m (Dy.ofNat 2)) a.level 0 a.scale).1
         simp only at h
-        split at h
-        · cases h
-        · rename_i hnb
-          cases h
-          refine ⟨by simp, rfl, rfl, ?_, by omega⟩
-          simp only [List.cons.injEq, and_true]
-          congr 1
-          omega
+        cases h
+        refine ⟨by simp, rfl, rfl, ?_, by omega⟩
+        simp only [List.cons.injEq, and_true]
+        congr 1
+        omega
+
+/-- `RescaleTo` never fails on a ciphertext of level ≥ 1 with positive scales: the panic of the original
+    loop (`newLevel >= 0`) is gone. -/
+theorem rescaleTo_total {P : Params} {a : Meta} {m : Dy} (hm : m.m ≠ 0) (hs : a.scale.m ≠ 0) (hl : a.level ≠ 0) :
+    ∃ r, rescaleTo P a m = .ok r := by
+  unfold rescaleTo
+  simp [hm, hs, hl]
 
 /-! ## SetScale, ScaleUp, DropLevel -/
 
@@ -283,21 +288,25 @@ theorem relinearize_meta {P : Params} {a o : Meta} {r : Res} (h : relinearize P 
 
 /-! ## MulThenAdd -/
 
-/-- the receiver of `MulThenAdd` with a scalar keeps its own level and is cut to `op0.Degree()`. -/
-theorem mulThenAddScalar_meta {P : Params} {a o : Meta} {re im : SD} {r : Res}
-    (h : mulThenAddScalar P a o re im = .ok r) :
-    r.md.level = o.level ∧ r.md.degree = a.degree ∧ r.md.logSlots = a.logSlots ∧
-    a.scale.cmp o.scale ≠ .gt := by
+/-- `MulThenAdd` with a scalar: evaluated at the minimum level, the receiver keeps its own
+    higher-degree terms, and the receiver must not be the operand. -/
+theorem mulThenAddScalar_meta {P : Params} {al : Alias} {a o : Meta} {re im : SD} {r : Res}
+    (h : mulThenAddScalar P al a o re im = .ok r) :
+    al = .fresh ∧ r.md.level = min a.level o.level ∧ r.md.degree = max a.degree o.degree ∧
+    r.md.logSlots = a.logSlots ∧ a.scale.cmp o.scale ≠ .gt := by
   unfold mulThenAddScalar at h
   simp only [bind, Except.bind] at h
   split at h
   · cases h
-  · rename_i v hv
-    cases h
-    refine ⟨rfl, rfl, rfl, ?_⟩
-    intro hgt
-    unfold mtaScale at hv
-    simp [hgt] at hv
+  · rename_i hal
+    split at h
+    · cases h
+    · rename_i v hv
+      cases h
+      refine ⟨by simpa using hal, rfl, rfl, rfl, ?_⟩
+      intro hgt
+      unfold mtaScale at hv
+      simp [hgt] at hv
 
 theorem mulThenAddElt_meta {P : Params} {relin : Bool} {al : Alias} {a b o : Meta} {r : Res}
     (h : mulThenAddElt P relin al a b o = .ok r) :
